@@ -155,10 +155,15 @@ def run(ctx):
     npol.mod_consts["BUILTIN_EXCLUDE"] = Const(frozenset(excl))
     npol.plain_ast_name = True
     for name in sorted(REQUIRED_EXCLUDED | {"__import__", "_private", "len"}):
-        for scen, local in (("script context", DictV(((Const("print"), Sym(("pyscript", "print"))),))), ("expression context", DictV(()))):
+        for scen, local in (("script context", DictV(((Const("print"), Sym(("pyscript", "print"))),))), ("expression context", DictV(())),
+                            ("function that declares the name global", DictV(((Const("print"), Sym(("pyscript", "print"))),)))):
             h = dict(MODULE_SCOPE)
             h["self.local_sym_table"] = local
             h["self.sym_table"] = DictV(((Const("$symtab"), Const("local")),))
+            if scen.startswith("function"):
+                h["self.curr_func"] = ObjV("curfunc", "EvalFunc")
+                h["curfunc.global_names"] = ListV((Const(name),), "set")
+                h["curfunc.nonlocal_names"] = ListV((), "set")
             node = NodeV("Name", {"id": Const(name), "ctx": NodeV("Load", {}, "ctx")}, f"name:{name}")
             out = run_handler(program, node, npol, method="ast_name", heap=h)
             real = False
@@ -167,14 +172,47 @@ def run(ctx):
                 if isinstance(v, App) and v.op == "getattr" and "builtins" in repr(v.args[0]) and v.args[1] == Const(name):
                     real = True
             want = name == "len"
+            if scen.startswith("function") and name == "len":
+                continue  # whether a builtin declared global resolves at all is not part of this property
             ctx.check(real == want, "R17.3", "eval.py::AstEval.ast_name", f"lookup of `{name}` in {scen}",
                       msg=(f"name lookup can return the real builtin `{name}` in a {scen}" if real else f"builtin `{name}` is no longer reachable in a {scen}"),
                       key=f"builtin {name} in {scen}", node=program.func("eval.py::AstEval.ast_name"), rel="eval.py")
     init = program.func("function.py::Function.init")
-    txt = norm(init)
-    ctx.check("'print': lambda ast_ctx: ast_ctx.get_logger().debug" in txt and "'log.error': lambda ast_ctx: ast_ctx.get_logger().error" in txt, "R17.3",
-              "function.py::Function.init", "print and log.* are bound to the evaluator's logger", msg="Function.init no longer maps print/log.* to the script logger",
-              key="print/log mapping", node=init, rel="function.py")
+    mapping = {}
+    for n in body_walk(init):
+        if isinstance(n, ast.Dict):
+            for k, v in zip(n.keys, n.values):
+                if isinstance(k, ast.Constant) and isinstance(k.value, str) and (k.value == "print" or k.value.startswith("log.")) and isinstance(v, ast.Lambda) and v.args.args:
+                    prm = v.args.args[0].arg
+                    b = v.body
+                    # lambda <ctx>: <ctx>.get_logger().<level>
+                    if isinstance(b, ast.Attribute) and isinstance(b.value, ast.Call) and isinstance(b.value.func, ast.Attribute) and b.value.func.attr == "get_logger" \
+                            and isinstance(b.value.func.value, ast.Name) and b.value.func.value.id == prm:
+                        mapping[k.value] = b.attr
+    want_map = {"print": "debug", "log.debug": "debug", "log.info": "info", "log.warning": "warning", "log.error": "error"}
+    ctx.check(all(mapping.get(k) == v for k, v in want_map.items()), "R17.3", "function.py::Function.init", "print and log.* are bound to the evaluator's own logger at the matching level",
+              msg=f"Function.init maps {mapping}; documented: {want_map} on the logger of the evaluator that runs the code", key="print/log mapping", node=init, rel="function.py")
+
+    ctx.rule("R17.6", "setting the integration up (again) makes the evaluators consult the entry being set up: the allow_all_imports switch read by import statements is the current one", floor=1)
+    from ..flow import FlowPolicy, exits, module_constants, run_flow
+    consts = module_constants(program, "const.py")
+    D, CE = consts["DOMAIN"].v, consts["CONFIG_ENTRY"].v
+    spol = FlowPolicy(program, may_raise_all=False, cancel=False, globals_=dict(consts), record_atoms=False)
+    spol.track_aliases = True
+    spol.loop_unroll = 1
+    sheap = {"hass.data": DictV([(Const(D), DictV([(Const(CE), ObjV("removed_entry", "ConfigEntry"))]))])}
+    sout = run_flow(program, "__init__.py::async_setup_entry", spol, args={"hass": ObjV("hass", "HomeAssistant"), "config_entry": ObjV("new_entry", "ConfigEntry")}, heap=sheap)
+    got = set()
+    for k, c, d in exits(sout):
+        dd = c.heap.get("hass.data")
+        inner = dd.get(Const(D)) if isinstance(dd, DictV) else None
+        got.add(repr(inner.get(Const(CE))) if isinstance(inner, DictV) and k == "return" else f"{k} {d}")
+    reads = [n for u in program.functions() for n in body_walk(u.node) if isinstance(n, ast.Subscript) and "CONFIG_ENTRY" in norm(n) and isinstance(n.ctx, ast.Load)] + \
+            [n for u in program.functions() for n in body_walk(u.node) if isinstance(n, ast.Call) and "CONFIG_ENTRY" in norm(n) and (call_name(n) or "").endswith(".get")]
+    ctx.check(got == {repr(ObjV("new_entry", "ConfigEntry"))} and bool(reads), "R17.6", "__init__.py::async_setup_entry", "hass.data[DOMAIN][CONFIG_ENTRY] is the entry being set up",
+              msg=f"async_setup_entry with an entry of an earlier set-up still recorded (integration removed and added again in one Home Assistant run) leaves hass.data[DOMAIN][CONFIG_ENTRY] = {sorted(got)}: "
+              f"AstEval reads allow_all_imports from the removed entry, imports the new configuration forbids are performed", key="config entry rebound on setup",
+              node=program.func("__init__.py::async_setup_entry"), rel="__init__.py", sample={"readers": len(reads)})
 
     ctx.rule("R17.4", "eval()/exec() of source text run through the interpreter; natively executed script code gets no unrestricted builtins", floor=2)
     f = program.func("eval.py::ast_eval_exec_factory.eval_func")
